@@ -483,9 +483,18 @@ impl P2p {
         // User can give us a bad header, so validate it.
         from.validate().map_err(|_| HeaderExError::InvalidRequest)?;
 
-        let height = from.height() + 1;
+        if amount == 0 {
+            // Nothing was requested. An empty range would make the session
+            // ask peers for zero headers, which is an invalid request.
+            return Ok(Vec::new());
+        }
 
-        let range = height..=height + amount - 1;
+        let height = from.height() + 1;
+        let last = height
+            .checked_add(amount - 1)
+            .ok_or(HeaderExError::InvalidRequest)?;
+
+        let range = height..=last;
 
         let mut session = HeaderSession::new(range, self.cmd_tx.clone());
         let headers = session.run().await?;
